@@ -12,7 +12,8 @@ CONST_OPS = [('FULLY_CONNECTED', 'bias'), ('FULLY_CONNECTED', 'nobias'),
              ('DEPTHWISE_CONV_2D', 'm1'), ('CONV_2D_TRANSPOSE', 'bias'),
              ('CONV_2D_TRANSPOSE', 'nobias'), ('BATCH_MATMUL', 'const'),
              ('BATCH_MATMUL', 'const_adjy'), ('EMBEDDING_LOOKUP', 'w4'),
-             ('EMBEDDING_LOOKUP', 'w3'), ('ADD', 'tc'), ('SUB', 'tc'),
+             ('EMBEDDING_LOOKUP', 'w3'), ('EMBEDDING_LOOKUP', 'v5'),
+             ('ADD', 'tc'), ('SUB', 'tc'),
              ('MUL', 'tc'), ('CONCATENATION', 'tc')]
 XSHAPES = ['S4', 'S43', 'R2', 'O13', 'O35']
 ALLMODES = [m for m in md.ALL_MODES if m != 'NQ']
@@ -20,8 +21,8 @@ QUICK_KINDS = ['rand', 'ramp', 'neg', 'const', 'zero', 'outlier', 'tie', 'big']
 
 
 def cases(tier, seed):
-  kinds = QUICK_KINDS if tier == 'quick' else list(irm.WEIGHT_KINDS)
-  pools = [seed % 4] if tier == 'quick' else [0, 1, 2, 3]
+  kinds = list(irm.WEIGHT_KINDS)
+  pools = [seed % 4, (seed + 1) % 4] if tier == 'quick' else [0, 1, 2, 3]
   for t, v in CONST_OPS:
     ar = dict(irm.VARIANTS[t])[v]
     for xs in XSHAPES:
@@ -43,8 +44,7 @@ def plan(tier, seed):
                'non-trivial = returned model in which at least one constant '
                'was rewritten'),
       'bounds': {'ops': CONST_OPS, 'xshapes': XSHAPES,
-                 'weight_kinds': QUICK_KINDS if tier == 'quick'
-                 else list(irm.WEIGHT_KINDS), 'modes': ALLMODES},
+                 'weight_kinds': list(irm.WEIGHT_KINDS), 'modes': ALLMODES},
       'assumptions': ['per-element bound: 1/2 step (symmetric config) or 1 '
                       'step (asymmetric) times (1 + 2^(bits-21)) for the '
                       'float32 evaluation inside the library'],
